@@ -53,6 +53,9 @@ func c08R2(c *Ctx, r *c08Roles) {
 	c08ComputeDirty(c.P, r)
 	nMut := 0
 	for _, f := range c09FuncsOfPkg(c.P, c08Pkg) {
+		if c09IsYieldBody(f) {
+			continue // judged as part of the function whose loop it is
+		}
 		fname := FnName(f)
 		muts := c08Mutations(f, r)
 		if len(muts) > 0 && r.dirty[f] {
